@@ -982,9 +982,15 @@ def list_elements(S: Sem, e: ast.AST, at: int, env: Optional[Dict[str, ast.AST]]
             return [ast.Constant(value=k) for k in range(e.args[0].value)]
         if cn == "zip" and e.args and not e.keywords:
             cols = [list_elements(S, a, at, {}, depth - 1) for a in e.args]
-            if any(c is None for c in cols):
+            known = [c for c in cols if c is not None]
+            if not known:
                 return None
-            n = min(len(c) for c in cols)
+            n = min(len(c) for c in known)
+            # an operand that cannot be enumerated (a parameter, say) contributes its i-th element symbolically; the length of the
+            # zip is that of the enumerable operands (a shorter opaque operand would end the loop earlier — callers that depend on
+            # the exact length must not rely on this)
+            cols = [c if c is not None else [ast.Subscript(value=a, slice=ast.Constant(value=i), ctx=ast.Load()) for i in range(n)]
+                    for c, a in zip(cols, e.args)]
             return [ast.Tuple(elts=[c[i] for c in cols], ctx=ast.Load()) for i in range(n)]
         if cn == "enumerate" and len(e.args) == 1:
             inner = list_elements(S, e.args[0], at, {}, depth - 1)
@@ -1015,6 +1021,16 @@ def list_elements(S: Sem, e: ast.AST, at: int, env: Optional[Dict[str, ast.AST]]
                     nxt.append(b)
             outs = nxt
         return [S._subst(e.elt, sub) for sub in outs]
+    if isinstance(e, ast.Attribute) and isinstance(e.value, ast.Name) and e.value.id == "self" and S.idx is not None and S.fi is not None and S.fi.cls is not None:
+        # an attribute that the constructor sets once to a literal tuple / list (e.g. the pair of spin channels)
+        ini = S.idx.find_method(S.fi.cls, "__init__")
+        if ini is not None:
+            sets = [a_ for a_ in ast.walk(ini.node) if isinstance(a_, ast.Assign) and len(a_.targets) == 1 and norm(a_.targets[0]) == norm(e)]
+            others = [a_ for m_ in S.fi.cls.methods.values() if m_ is not ini for a_ in ast.walk(m_.node)
+                      if isinstance(a_, (ast.Assign, ast.AugAssign)) and norm(a_.targets[0] if isinstance(a_, ast.Assign) else a_.target) == norm(e)]
+            if len(sets) == 1 and not others and isinstance(sets[0].value, (ast.Tuple, ast.List)):
+                return list(sets[0].value.elts)
+        return None
     if isinstance(e, ast.Subscript) and isinstance(e.slice, ast.Slice):
         inner = list_elements(S, e.value, at, {}, depth - 1)
         if inner is None:
